@@ -47,7 +47,9 @@ def ev_row(case, rec):
         rec.nontriv((case['ell'], case['prj'], case['zone'], lat, d['lon'], case.get('kind')))
         co = {'lat': lat, 'lon': d['lon'], 'ell': case['ell'], 'prj': case['prj'], 'zone': case['zone']}
         # zone
-        if case['zone'] == 0:
+        if case['prj'] == 'isg2':
+            pass        # only the coordinates are judged (against the exact TM about the nearest layout meridian)
+        elif case['zone'] == 0:
             okz = (not math.isnan(d['cm'])) and abs(d['lonf'] - d['cm']) <= zw / 2 + 1e-9
             if case['prj'] != 'isg':
                 okz = okz and 1 <= d['zone'] <= 60
@@ -93,7 +95,22 @@ def gen(tier, seed):
     return tmcommon.gen_rows(tier, seed)
 
 
-SUBCHECKS = [Sub('forward', gen, ev_row, chunk=24, floor=1000)]
+def gen_const(tier, seed):
+    yield {'what': 'shipped ellipsoid and projection constants'}
+
+
+def ev_const(case, rec):
+    rec.transition()
+    rec.nontriv()
+    bad = cfg.published_constants_ok()
+    rec.state(('constants', len(bad)))
+    for n, got, exp in bad:
+        rec.fail('shipped constant %s does not carry its published defining values' % n, site='constants:' + n, observed=got, expected=exp)
+    rec.outcome('constants-ok' if not bad else 'constants-bad')
+    rec.sample({'published_ellipsoids': cfg.PUBLISHED_ELL, 'published_projections': cfg.PUBLISHED_PRJ})
+
+
+SUBCHECKS = [Sub('constants', gen_const, ev_const, chunk=1, floor=1, parallel=False), Sub('forward', gen, ev_row, chunk=24, floor=1000)]
 
 
 def bounds(tier, seed):
